@@ -290,6 +290,12 @@ def r03_3(run):
                        message='already_fired is given %s, not the popped command\'s Deferred' % src(arg))
 
 
+def r03_5(run):
+    """the in-flight slot is only ever released by the reply / the loss handler: _maybe_issue_command touches it only when it is
+    empty (rule R01.4, shared) - clearing it on some other condition lets connectionLost forget the command that was in flight"""
+    borrow(run, c01.r01_4, 'R03.5')
+
+
 def r_so(run):
     so.check_so(run, 'R-SO')
 
@@ -297,6 +303,7 @@ def r_so(run):
 RULES = [
     ('R03.1', 'post-condition of connectionLost on every path: one disconnect notification, in-flight and queued commands errbacked, slot cleared, queue emptied', r03_1),
     ('R03.4', 'order inside connectionLost: snapshot after the last observer notification; no partial operation (unpack of split, int()) inside the errback loop', r03_4),
+    ('R03.5', 'in-flight slot discipline of _maybe_issue_command (R01.4 borrowed)', r03_5),
     ('R03.2', 'typestate of the in-flight slot in _maybe_issue_command: taken => written or released on every path', r03_2),
     ('R03.3', 'dominance: the transport write lies behind the not-disconnected test', r03_3),
     ('R-SO', 'SingleObserver is guard-and-latch; every .fire receiver is a SingleObserver field', r_so),
